@@ -40,6 +40,7 @@ class World(object):
         s.ops = {}          # opid -> dict(thread, obj, kind, idx)
         s.globals = {}
         s.gates = {}
+        s.flag_opens = {}
         s.rewake_gates = set(op[1] for th_ in scen['threads'] for op in th_['ops'] if op[0] == 'rewake')
         s.live_pool = ZERO      # census of spawned-and-not-joined pool threads
         s.install_natives()
@@ -320,6 +321,16 @@ class World(object):
             s.gset('flagdrop_at%d' % k, BV(mm.now), g, NONE_T)
             return UNIT
         R('__dropflag', dropflag)
+        def dropflag_wake(mm, th, a, g):
+            # a closure that owns the sending half of a channel feeding another pipe: dropping it is a stream event there (the gate opens and
+            # the waker registered with it is woken, from inside whatever thread runs the drop).  Not a scheduling point of its own.
+            v = mm.load(a[0], g)
+            if not isinstance(v, St): return NoneV()
+            k = v.f[0].val
+            gk = s.flag_opens.get(k)
+            if gk is None: return NoneV()
+            return gate_open2(mm, th, [BV(gk)], g)
+        R('__dropflag_wake', dropflag_wake)
         def s_done(mm, th, a, g):
             op = a[0].val; pr = a[1]
             s.gset('ret%d' % op, BV(mm.now), g, NONE_T)
@@ -566,6 +577,7 @@ class World(object):
                         s.ops[opid] = dict(thread=name, tid=None, obj=obj, kind='pipe_item', idx=oi, opid=opid, tindex=ti, probe=False, gated=False, tok=40 + opid, item=k, gate=gates[k], pipe=base, wrapper=True)
                         opid += 1
                     pid = len(s.pipes); s.pipes.append(dict(base=base, n=n, gates=gates, ends=ends, obj=obj, thread=name, var=op[1]))
+                    if body.get('drop_opens') is not None: s.flag_opens[2 * pid + 1] = body['drop_opens']
                     cl = 'scen:%s:%d' % (name, oi)
                     T.append(s.pipe_process_closure(name, oi, cl, obj, base, n, pk))
                     st_ = fresh(); f1 = fresh(); f2 = fresh(); c = fresh(); a2 = fresh(); ar = fresh(); r = fresh()
@@ -708,9 +720,20 @@ fn scen::GateFut::drop(_1: &mut GateFut) -> () {
 
 fn scen::DropFlag::drop(_1: &mut DropFlag) -> () {
     bb0: {
-        _0 = __dropflag(copy _1) -> [return: bb1, unwind continue];
+        _2 = __dropflag(copy _1) -> [return: bb1, unwind continue];
     }
     bb1: {
+        _3 = __dropflag_wake(copy _1) -> [return: bb2, unwind continue];
+    }
+    bb2: {
+        _4 = discriminant(_3);
+        switchInt(move _4) -> [0: bb4, otherwise: bb3];
+    }
+    bb3: {
+        _5 = move ((_3 as Some).0: Waker);
+        _6 = Waker::wake(move _5) -> [return: bb4, unwind continue];
+    }
+    bb4: {
         return;
     }
 }
